@@ -2,6 +2,7 @@
 # usage: confirm_seeds.sh <seed dir> [<seed dir> ...]
 # confirms each seeded change in a scratch worktree: applies, builds, full ctest passes, demo fails; reverted: demo passes.
 # Results -> <seed dir>/confirm.txt .  The scratch worktree is removed at the end.
+exec 9>/tmp/confirm_seeds.lock; flock 9   # one confirmation run at a time (they share the scratch worktree)
 WT=/tmp/confirm_wt
 J=${J:-10}
 if [ ! -d $WT ]; then
